@@ -247,6 +247,10 @@ func cmdVerify(args []string) int {
 			trusted["trusted contract (body not verified): "+f] = true
 			continue
 		}
+		if r.Port {
+			trusted["port contract assumed for interface method "+f+" (implementations unverified unless listed under functions_under_contract)"] = true
+			continue
+		}
 		for _, t := range r.Trusted {
 			trusted[t] = true
 		}
